@@ -2,19 +2,27 @@
 
 A rider on simulated working-tree histories: one run = one per-user rules file
 (`[name *] eol = S`, optionally preceded by `[name *.x] eol = S2`, S and S2 drawn from
-the seven documented settings), one 2a branch with up to four working trees (the
-standalone tree and lightweight checkouts of its branch) and a seeded, model-generated
-sequence of
+the seven documented settings), one branch in a seeded format whose working trees support
+content filtering (2a: CHK repository, a text is one chunk; 1.14 / 1.14-rich-root: knit-pack
+repository, one chunk per line) with up to four working trees (the standalone tree and
+lightweight checkouts of its branch) and a seeded, model-generated sequence of
 
     write      the user writes a file (contents over CR / LF / NUL / letters: line-structured
                text with the checkout convention, LF, CRLF or mixed endings, interior bare
                CRs; byte soup; binary (with NUL); the current content re-spelled with the
-               other line ending) - added on first use
+               other line ending; in a share of the runs one or two LARGE files of 1-3 whole
+               32 KiB blocks plus a tail: text whose line ends sit exactly at block boundaries
+               of the checkout form or of the written form (CR last byte of a block / LF first
+               byte of the next, ending closes a block, ending opens a block), and binaries
+               whose first block has line ends but no NUL) - added on first use
     commit     working tree -> repository        (read filters)
     checkout   repository -> fresh working tree (write filters; tip or an older revision;
                with or without accelerator tree)
     revert     repository -> working tree       (write filters), whole tree or selected paths
     update     an out-of-date tree follows the branch (merge; write filters)
+    merge      a one-shot side branch (sprout of the tree's basis, new and changed files
+               committed there) is merged into a clean tree: new files are created through the
+               merger's create_from_tree (32 KiB blocks); the merge is committed by a later commit
     reopen
 
 After every operation the tree is compared with a model that knows nothing about breezy's
@@ -40,9 +48,9 @@ PROPERTY = "C45"
 LEVEL = "exploration"
 RULE = (
     "one case = one seeded run: eol setting for '*' and (70%) a second one for '*.x' out of native, lf, crlf, native-with-crlf-in-repo, "
-    "lf-with-crlf-in-repo, crlf-with-crlf-in-repo, exact; 6-24 model-generated operations (write / commit / fresh checkout / revert / update / reopen) "
-    "over 5 paths and up to 4 working trees of one 2a branch, file contents over CR, LF, NUL and letters; the tree is compared with the model after every operation; "
-    "non-trivial = at least one commit and one repository->tree operation (checkout, revert that rewrote a file, update) were executed and compared under a converting setting; "
+    "lf-with-crlf-in-repo, crlf-with-crlf-in-repo, exact; branch format 2a | 1.14 | 1.14-rich-root; 6-24 model-generated operations (write / commit / fresh checkout / revert / update / merge of a side branch / reopen) "
+    "over 5 paths and up to 4 working trees of one branch, file contents over CR, LF, NUL and letters, in a share of the runs 1-2 files of 33-100 KiB with line ends aligned at 32 KiB block boundaries or with NULs only after the first block; the tree is compared with the model after every operation; "
+    "non-trivial = at least one commit and one repository->tree operation (checkout, revert that rewrote a file, update, merge) were executed and compared under a converting setting; "
     "distinct = distinct event-log digests of such runs ((setting, operation, content class) combinations counted as model states). "
     "No schedule and no fault of its own: a cross-check riding on simulated tree histories"
 )
@@ -51,7 +59,8 @@ COMPONENTS = {
         "breezy.filters (filtered_input_file, filtered_output_bytes, _get_filter_stack_for), breezy.filters.eol (converters, _eol_filter_stack_map)",
         "breezy.rules (_IniBasedRulesSearcher over the rules file under BRZ_HOME), Tree._content_filter_stack / iter_search_rules",
         "breezy.bzr.workingtree_4 (WorkingTree6, ContentFilterAwareSHA1Provider, dirstate iter_changes), breezy.workingtree.get_file_with_stat",
-        "breezy.commit, breezy.transform (build_tree incl. accelerator tree, revert), breezy.merge (update), lightweight checkouts",
+        "breezy.commit, breezy.transform (build_tree incl. accelerator tree, revert, create_from_tree), breezy.merge (update, merge_from_branch of a sprouted side branch), lightweight checkouts",
+        "repository formats 2a (CHK, groupcompress) and 1.14 / 1.14-rich-root (KnitPack6: texts handed out line by line) with WorkingTreeFormat6 / 5",
         "a real directory on /dev/shm; bzr control files through the storage seam (sim+file://)",
     ],
     "simulated": ["the user editing, committing, checking out, reverting and updating (seeded operation sequence)", "process restart (drop the object, WorkingTree.open)"],
@@ -60,12 +69,14 @@ COMPONENTS = {
 ASSUMPTIONS = [
     "rider, not a simulation of the filters: no scheduling, no fault injection; the only seeded inputs are the settings, the operation sequence and the file contents",
     "POSIX: 'native' checks out LF (sys.platform != win32)",
-    "bzr 2a working trees (WorkingTree6) only. Git working trees of this code base also support content filtering (per-user rules stacked under a .gitattributes text/eol searcher, breezy/git/workingtree.py); they are not covered here",
+    "bzr working trees that support content filtering: formats 2a (WorkingTree6) and 1.14 / 1.14-rich-root (WorkingTree5); 1.9, pack-0.92 and older formats have WorkingTreeFormat4/3 without content filtering. Git working trees of this code base also support content filtering (per-user rules stacked under a .gitattributes text/eol searcher, breezy/git/workingtree.py); they are not covered here",
     "rules are cached per process in the module global breezy.rules._per_user_searcher (built at import from the rules path of that moment): every run writes its rules file to rules.rules_path() under its own BRZ_HOME and calls rules.reset_rules() (runs of one worker are sequential, ISOLATION=thread); filters._stack_cache maps (name, value) to immutable stacks and needs no reset",
     "oracle = the table of `brz help eol`: a setting stores LF (native, lf, crlf) or CRLF (*-with-crlf-in-repo) and checks out LF (native, lf, native-/lf-with-crlf-in-repo) or CRLF (crlf, crlf-with-crlf-in-repo); 'exact' and content with a NUL byte are never converted. Applied by the model as: split at every CRLF or LF, join with the target ending",
     "what 'canonical' means is narrowed to where the documentation is unambiguous: text without NUL and without the byte sequence CR CR LF (a bare CR directly before a CRLF). For such text every prediction is exact (what commit stores, what checkout/revert/update write, what is read back, that a fresh checkout reports no changes). Bare CRs elsewhere are allowed and must pass through untouched",
     "content with CR CR LF (reachable only from the byte-soup generator) is NOT asserted against the property while the guard 'crcrlf' is on (GUARDS; lifted in VERIF_UNGUARDED of the runs or, once known_findings.json has an open entry [C45, 'known-defect', 'crcrlf'], in 20% of them: then a fresh checkout that reports changes fails with that signature): breezy's converters are not idempotent there (CR CR LF -> CR LF -> LF), so commit can store text that a fresh checkout reports as modified (see the final report). For such files the model takes what breezy read / stored / wrote as given and only checks that conversion touched nothing but CRs directly in front of an LF (contents equal after collapsing CR* LF to LF) and that all views agree with each other (get_file_text, sha1, iter_changes, commit)",
-    "every write gives the file a length no earlier content of the run had on disk or in the repository (padding with letters; 32-byte bands per write), so nothing asserted depends on the dirstate stat cache; the real clock is left alone",
+    "every write gives the file a length no earlier content of the run had on disk or in the repository (padding with letters; 32-byte bands per write; large files: blocks*32768 + 1024 + 32*n, at most 12 line ends), so nothing asserted depends on the dirstate stat cache; the real clock is left alone",
+    "large contents are stored run-length encoded in the plan; block alignment is computed for osutils.file_iterator's 32768-byte blocks in the checkout form of the file's setting (70%) or in the other spelling, and the user writes either spelling",
+    "merge: the side branch is used once (sprout at the tree's basis, one commit of new files and of changed existing files, merged into a tree that is clean and up to date), so it cannot conflict; not generated while any text of the basis is outside the canonical form (the side tree is a fresh checkout that is committed: crcrlf territory); while the merge is pending revert / update / another merge are not generated; a text taken over unchanged from the merged revision must keep the text version it has there",
     "update is only generated when it cannot conflict: no pending adds, and no file that is locally modified was changed on the branch since the tree's basis; revert runs with backups=False; commit with allow_pointless=True, explicit revision ids, file ids, timestamps and committer",
     "a file whose canonical reading equals the basis is not rewritten by revert/update even if its bytes on disk differ (e.g. CRLF spelling under eol=lf): the property only speaks about canonical content",
     "runs execute in-process (ISOLATION=thread): each run builds rules file, trees, model and Sim from scratch",
@@ -93,6 +104,11 @@ WT_EOL = {"native": LF, "lf": LF, "crlf": CRLF, "native-with-crlf-in-repo": LF, 
 NAMES = ["a", "b.x", "d/c", "d/e.x", "g"]
 MAX_TREES = 4
 BAND = 32
+BLOCK = 32768  # osutils.file_iterator's block size: where block-wise readers / writers would cut a file
+BIG_EXTRA = 1024
+# formats whose working trees support content filtering (WorkingTreeFormat5/6): the CHK repository
+# of 2a hands out a file's text as one chunk, the knit-pack repositories of 1.14 one chunk per line
+FORMATS = ["2a", "2a", "1.14", "1.14-rich-root"]
 _EOL_RE = re.compile(rb"\r?\n")
 _BARE_LF = re.compile(rb"(?<!\r)\n")
 _CRS_LF = re.compile(rb"\r+\n")
@@ -153,6 +169,26 @@ def is_opaque(v):
     return isinstance(v, tuple)
 
 
+def op_bytes(spec):
+    """Content of a write: literal ("x", latin-1) or run-length encoded ("rle": [[count, token], ...])."""
+    if "rle" in spec:
+        return b"".join(tok.encode("latin-1") * cnt for cnt, tok in spec["rle"])
+    return spec["x"].encode("latin-1")
+
+
+def show(b, other=None):
+    """Short rendering of (possibly large) content for failure details."""
+    if b is None or is_opaque(b):
+        return repr(b)
+    if len(b) <= 160:
+        return repr(b)
+    out = "<%d bytes, sha1 %s, starts %r, ends %r" % (len(b), hashlib.sha1(b).hexdigest()[:10], b[:24], b[-24:])
+    if other is not None and not is_opaque(other) and other != b:
+        k = next((i for i, (x, y) in enumerate(zip(b, other)) if x != y), min(len(b), len(other)))
+        out += "; first difference at offset %d: %r" % (k, b[max(0, k - 8) : k + 8])
+    return out + ">"
+
+
 class World:
     """Model: revisions of one branch (path -> repository text), working trees (basis,
     versioned files, bytes on disk, canonical reading).  Values the documentation does not
@@ -164,7 +200,9 @@ class World:
         self.revs = [("rev-0", {}, {})]
         self.n = 0
         # [{"basis": index, "ver": set of files, "disk": {}, "read": {}, "junk": unversioned leftovers}]
-        self.trees = [{"basis": 0, "ver": set(), "disk": {}, "read": {}, "junk": set()}]
+        self.trees = [{"basis": 0, "ver": set(), "disk": {}, "read": {}, "junk": set(), "pending": None}]
+        # one-shot side branches merged into a tree: name -> ({path: text}, {path: last-changed revision})
+        self.sides = {}
 
     def setting(self, p):
         return self.s2 if (self.s2 and p.endswith(".x")) else self.s
@@ -186,7 +224,7 @@ class World:
         return self.opaque() if w is None else w
 
     def subst(self, token, value):
-        for _n, texts, _lc in self.revs:
+        for texts in [r[1] for r in self.revs] + [sd[0] for sd in self.sides.values()]:
             for p, v in texts.items():
                 if v == token:
                     texts[p] = value
@@ -233,10 +271,27 @@ class World:
         if o == "commit":
             return t["basis"] == self.tip() and all(n != op["rev"] for n, _t, _l in self.revs)
         if o == "revert":
+            if t["pending"]:
+                return False  # what revert does with files a pending merge created is not this check's subject
             b = self.basis_texts(t)
             return all(s == "d" or s in t["ver"] or s in b for s in (op.get("paths") or []))
+        if o == "merge":
+            # a one-shot side branch (sprout of the tree's basis, one commit) merged into a clean, up-to-date tree
+            if t["pending"] or t["basis"] != self.tip() or self.modified(t) or self.added(t) or not op["files"]:
+                return False
+            if op["rev"] in self.sides or any(n == op["rev"] for n, _t, _l in self.revs):
+                return False
+            b = self.basis_texts(t)
+            # the side tree is a fresh checkout that gets committed: keep out of the crcrlf territory (a file
+            # whose stored text is not canonical reads back changed there and would be committed on the side)
+            if any(is_opaque(r) or to_wt(r, self.setting(q)) is None for q, r in b.items()):
+                return False
+            ps = [f["p"] for f in op["files"]]
+            if len(set(ps)) != len(ps):
+                return False
+            return all(p in b or (p not in t["ver"] and p not in t["junk"]) for p in ps)
         if o == "update":
-            if t["basis"] == self.tip() or self.added(t):
+            if t["pending"] or t["basis"] == self.tip() or self.added(t):
                 return False
             b, tip = self.basis_texts(t), self.revs[self.tip()][1]
             if any(p in t["junk"] for p in tip if p not in b):
@@ -252,7 +307,7 @@ class World:
         if o == "checkout":
             at = self.at(op)
             texts = self.revs[at][1]
-            t = {"basis": at, "ver": set(texts), "disk": {}, "read": {}, "junk": set()}
+            t = {"basis": at, "ver": set(texts), "disk": {}, "read": {}, "junk": set(), "pending": None}
             for p, r in texts.items():
                 t["disk"][p] = self.wt_form(p, r)
                 t["read"][p] = r if not is_opaque(t["disk"][p]) else self.opaque()
@@ -260,7 +315,7 @@ class World:
             return set(texts)
         t = self.trees[op["t"]]
         if o == "write":
-            p, x = op["p"], op["x"].encode("latin-1")
+            p, x = op["p"], op_bytes(op)
             t["ver"].add(p)
             t["junk"].discard(p)
             t["disk"][p] = x
@@ -270,9 +325,33 @@ class World:
             prev = self.revs[t["basis"]]
             texts = {p: t["read"][p] for p in t["ver"]}
             last = {p: (prev[2][p] if p in prev[1] and prev[1][p] == texts[p] else op["rev"]) for p in texts}
+            if t["pending"]:
+                # a text taken over unchanged from the merged revision keeps the version it has there
+                stexts, slast = self.sides[t["pending"]]
+                for p in texts:
+                    if slast.get(p) == t["pending"] and stexts[p] == texts[p]:
+                        last[p] = t["pending"]
+                t["pending"] = None
             self.revs.append((op["rev"], texts, last))
             t["basis"] = self.tip()
             return set()
+        if o == "merge":
+            btexts, blast = self.revs[t["basis"]][1], self.revs[t["basis"]][2]
+            stexts, slast = dict(btexts), dict(blast)
+            changed = set()
+            for f in op["files"]:
+                p = f["p"]
+                r = self.reading(p, op_bytes(f))
+                if p not in btexts or r != btexts[p]:
+                    stexts[p], slast[p] = r, op["rev"]
+                    changed.add(p)
+            self.sides[op["rev"]] = (stexts, slast)
+            for p in changed:
+                t["ver"].add(p)
+                t["disk"][p] = self.wt_form(p, stexts[p])
+                t["read"][p] = stexts[p] if not is_opaque(t["disk"][p]) else self.opaque()
+            t["pending"] = op["rev"]
+            return changed
         if o == "revert":
             b = self.basis_texts(t)
             sel = op.get("paths")
@@ -321,10 +400,70 @@ def _body(rng):
     return b
 
 
-def gen_content(rng, world, t, p, n):
+def gen_big(rng, world, p, n):
+    """A file of 1-3 whole 32 KiB blocks plus a tail, as run-length encoded segments.
+
+    text: clean line-structured text whose line ends sit AT block boundaries (CR last byte of a
+    block and LF first byte of the next / ending closes a block / ending opens a block) of a chosen
+    form - the checkout form of the file's eol setting (what a fresh checkout writes and status
+    hashes) or the form the user writes; the written form spells the same lines with either ending.
+    binary: the first block has line ends but no NUL; NULs only in later blocks."""
+    s = world.setting(p)
+    k = rng.choice([1, 1, 2, 3])
+    total = k * BLOCK + BIG_EXTRA + BAND * n
+    if rng.random() < 0.4:
+        segs = [[rng.randint(1, 9), "h"], [1, rng.choice(["\r\n", "\n"])], [rng.randint(0, 5), "i"], [1, rng.choice(["\r\n", "\n", "\r"])]]
+        pos = sum(c * len(tok) for c, tok in segs)
+        if rng.random() < 0.5:
+            # a CRLF across the first block boundary, still before any NUL
+            segs += [[BLOCK - 1 - pos, "b"], [1, "\r\n"]]
+            pos = BLOCK + 1
+        nul_at = rng.randint(max(pos, BLOCK) + 1, total - 40)
+        segs += [[nul_at - pos, "c"], [1, "\x00"], [rng.randint(0, 6), "d"], [1, rng.choice(["\r\n", "\n", "\x00"])]]
+        pos = sum(c * len(tok) for c, tok in segs)
+        segs.append([total - pos, "e"])
+        return {"rle": [sg for sg in segs if sg[0] > 0]}, "bigbinary"
+    wt = (WT_EOL.get(s) or rng.choice([LF, CRLF])).decode("latin-1")
+    other = "\n" if wt == "\r\n" else "\r\n"
+    e_align = wt if rng.random() < 0.7 else other
+    segs, pos = [], 0
+    for _ in range(rng.randint(0, 2)):
+        c = rng.randint(0, 6)
+        segs += [[c, "s"], [1, e_align]]
+        pos += c + len(e_align)
+    for j in range(1, k + 1):
+        b = j * BLOCK
+        mode = rng.choice(["straddle", "straddle", "straddle", "closes", "opens", "none"])
+        if mode == "none":
+            continue
+        lf_at = b if mode == "straddle" else b - 1 if mode == "closes" else b + len(e_align) - 1
+        fill = lf_at - len(e_align) + 1 - pos
+        if fill < 1:
+            continue
+        segs += [[fill, "abz"[j % 3]], [1, e_align]]
+        pos = lf_at + 1
+    trailing = rng.random() < 0.5
+    segs.append([total - pos - (len(e_align) if trailing else 0), "t"])
+    if trailing:
+        segs.append([1, e_align])
+    # the user may spell the same lines with the other ending (length moves by one byte per line end)
+    e_x = e_align if rng.random() < 0.6 else (other if e_align == wt else wt)
+    rle = [[c, (e_x if tok in ("\n", "\r\n") else tok)] for c, tok in segs if c > 0]
+    return {"rle": rle}, "bigtext"
+
+
+def gen_content(rng, world, t, p, n, big=False):
+    """-> (content spec {"x": latin-1 text} | {"rle": ...}, kind)."""
+    if big:
+        return gen_big(rng, world, p, n)
+    x, kind = _gen_small(rng, world, t, p, n)
+    return {"x": x}, kind
+
+
+def _gen_small(rng, world, t, p, n):
     s = world.setting(p)
     cur = t["read"].get(p)
-    kind = rng.choice(["lines", "lines", "lines", "soup", "soup", "binary", "respell"])
+    kind = rng.choice(["lines", "lines", "lines", "soup", "soup", "binary", "binary", "respell"])
     raw = None
     if kind == "respell":
         # same canonical text, other spelling on disk: must read back as unchanged
@@ -356,6 +495,11 @@ def gen_content(rng, world, t, p, n):
         toks = [rng.choice(["a", "\r", "\n", "\r\n", "\x00"]) for _ in range(rng.randint(1, 8))]
         toks.insert(rng.randrange(len(toks) + 1), "\x00")
         raw = "".join(toks)
+        if rng.random() < 0.5:
+            # binary that looks like text at first: the first line(s) have no NUL (PNG signature ...)
+            raw = rng.choice(["\x89PNG\r\n\x1a\n", "h\n", "h\r\n", "\r\n"]) + raw
+            x = raw[: BAND // 2 - 2]
+            return x + "p" * (BAND * n - len(x)), kind
     # padding: the length lands in the n-th band (conversion changes it by at most one byte per line ending)
     raw = raw[: BAND // 2 - 2]
     pad = "p" * (BAND * n - len(raw))
@@ -386,12 +530,15 @@ def generate(rng, tier):
 def _generate(rng, tier):
     s = rng.choice(SETTINGS)
     s2 = rng.choice(SETTINGS) if rng.random() < 0.7 else None
+    fmt = rng.choice(FORMATS)
+    # large files (33-100 KiB) only in a share of the runs, at most two of them
+    big_left = rng.choice([0, 0, 1, 2]) if rng.random() < 0.6 else 0
     w = World(s, s2)
     ops = []
     n = 0
-    weights = {"write": 8, "commit": 4, "checkout": 3, "revert": 4, "update": 6, "reopen": 1}
-    for k in ("checkout", "revert", "update", "reopen"):
-        weights[k] *= rng.choice([0, 1, 1, 2] if k == "reopen" else [1, 1, 2])
+    weights = {"write": 8, "commit": 4, "checkout": 3, "revert": 4, "update": 6, "reopen": 1, "merge": 2}
+    for k in ("checkout", "revert", "update", "reopen", "merge"):
+        weights[k] *= rng.choice([0, 1, 1, 2] if k in ("reopen", "merge") else [1, 1, 2])
     pool = [k for k, v in sorted(weights.items()) for _ in range(v)]
     want = rng.randint(6, 24)
     tries = 0
@@ -409,8 +556,28 @@ def _generate(rng, tier):
         if kind == "write":
             n += 1
             p = rng.choice(NAMES)
-            x, ck = gen_content(rng, w, t, p, n)
-            op = {"o": "write", "t": ti, "p": p, "x": x, "c": ck}
+            big = big_left > 0 and rng.random() < 0.3
+            spec, ck = gen_content(rng, w, t, p, n, big)
+            op = {"o": "write", "t": ti, "p": p, "c": ck}
+            op.update(spec)
+        elif kind == "merge":
+            if t["pending"] or t["basis"] != w.tip() or w.modified(t) or w.added(t):
+                continue
+            known = set(t["ver"]) | t["junk"]
+            for r in w.revs:
+                known.update(r[1])
+            fresh = [q for q in NAMES if q not in known]
+            files = []
+            for q in rng.sample(NAMES, rng.randint(1, 2)):
+                if q in fresh or q in w.basis_texts(t):
+                    n += 1
+                    big = big_left > 0 and rng.random() < 0.6
+                    spec, ck = gen_content(rng, w, t, q, n, big)
+                    f = {"p": q, "c": ck}
+                    f.update(spec)
+                    files.append(f)
+            n += 1
+            op = {"o": "merge", "t": ti, "rev": "side-%d" % n, "ts": 1700000000 + n, "files": files}
         elif kind == "commit":
             n += 1
             op = {"o": "commit", "t": ti, "rev": "rev-%d" % n, "ts": 1700000000 + n}
@@ -433,7 +600,8 @@ def _generate(rng, tier):
             continue
         w.do(op)
         ops.append(op)
-    return {"s": s, "s2": s2, "ops": ops}
+        big_left -= sum(1 for f in [op] + op.get("files", []) if "rle" in f)
+    return {"s": s, "s2": s2, "fmt": fmt, "ops": ops}
 
 
 # --------------------------------------------------------------------------------------
@@ -477,7 +645,7 @@ def read_disk(root, p):
 def verify(sim, w, ti, tree, op, wrote=(), unguarded=()):
     """Compare working tree `ti` with the model (and substitute what the model left open)."""
     t = w.trees[ti]
-    ctx = "tree %d after %s" % (ti, json.dumps({k: v for k, v in (op or {"o": "init"}).items() if k != "x"}, sort_keys=True))
+    ctx = "tree %d after %s" % (ti, json.dumps({k: v for k, v in (op or {"o": "init"}).items() if k not in ("x", "rle", "files")}, sort_keys=True))
     kind = op["o"] if op else "init"
 
     def sig(p):
@@ -496,8 +664,15 @@ def verify(sim, w, ti, tree, op, wrote=(), unguarded=()):
                 if is_opaque(btexts[p]):
                     w.subst(btexts[p], r)
                 elif r != btexts[p]:
-                    fail(sim, "stored", sig(p) + [klass(btexts[p])], "%s: %r: the repository holds %r, expected %r" % (ctx, p, r, btexts[p]))
+                    fail(sim, "stored", sig(p) + [klass(btexts[p])], "%s: %r: the repository holds %s, expected %s" % (ctx, p, show(r, btexts[p]), show(btexts[p])))
             btexts = w.basis_texts(t)
+            if t["pending"] and any(is_opaque(v) for v in w.sides[t["pending"]][0].values()):
+                # what the side branch stored for content the documentation does not decide
+                side_tree = tree.branch.repository.revision_tree(t["pending"].encode())
+                with side_tree.lock_read():
+                    for p, v in sorted(w.sides[t["pending"]][0].items()):
+                        if is_opaque(v):
+                            w.subst(v, side_tree.get_file_text(p))
             vers = {p for p in tree.all_versioned_paths() if tree.kind(p) == "file"}
             if vers != t["ver"]:
                 fail(sim, "versioned", [kind], "%s: versioned files %r, model %r" % (ctx, sorted(vers), sorted(t["ver"])))
@@ -507,30 +682,30 @@ def verify(sim, w, ti, tree, op, wrote=(), unguarded=()):
                 want = t["disk"][p]
                 if is_opaque(want):
                     # written from repository text outside the canonical form: only "nothing but line endings"
-                    src = btexts.get(p)
+                    src = w.sides[t["pending"]][0].get(p) if t["pending"] else btexts.get(p)
                     if src is not None and not is_opaque(src) and collapse(disk) != collapse(src):
-                        fail(sim, "written_beyond_eol", sig(p), "%s: %r: wrote %r for repository text %r" % (ctx, p, disk, src))
+                        fail(sim, "written_beyond_eol", sig(p), "%s: %r: wrote %s for repository text %s" % (ctx, p, show(disk, src), show(src)))
                     w.subst(want, disk)
                     sim.probe("disk_open")
                 elif disk != want:
                     tag = "binary_converted" if NUL in want else "written"
-                    fail(sim, tag, sig(p) + [klass(want)], "%s: %r (eol=%s): on disk %r, expected %r" % (ctx, p, s, disk, want))
+                    fail(sim, tag, sig(p) + [klass(want)], "%s: %r (eol=%s): on disk %s, expected %s" % (ctx, p, s, show(disk, want), show(want)))
                 raw = tree.get_file_text(p, filtered=False)
                 if raw != disk:
-                    fail(sim, "unfiltered_read", sig(p), "%s: %r: get_file_text(filtered=False) %r, on disk %r" % (ctx, p, raw, disk))
+                    fail(sim, "unfiltered_read", sig(p), "%s: %r: get_file_text(filtered=False) %s, on disk %s" % (ctx, p, show(raw, disk), show(disk)))
                 txt = tree.get_file_text(p)
                 want = t["read"][p]
                 if is_opaque(want):
                     if collapse(txt) != collapse(disk) or NUL in disk and txt != disk:
-                        fail(sim, "read_beyond_eol", sig(p), "%s: %r: on disk %r read as %r" % (ctx, p, disk, txt))
+                        fail(sim, "read_beyond_eol", sig(p), "%s: %r: on disk %s read as %s" % (ctx, p, show(disk), show(txt, disk)))
                     w.subst(want, txt)
                     sim.probe("read_open")
                 elif txt != want:
                     tag = "binary_converted" if NUL in disk else "read_back"
-                    fail(sim, tag, sig(p) + [klass(disk)], "%s: %r (eol=%s): on disk %r is read as %r, expected %r" % (ctx, p, s, disk, txt, want))
+                    fail(sim, tag, sig(p) + [klass(disk)], "%s: %r (eol=%s): on disk %s is read as %s, expected %s" % (ctx, p, s, show(disk), show(txt, want), show(want)))
                 sha = tree.get_file_sha1(p)
                 if sha != hashlib.sha1(txt).hexdigest().encode():
-                    fail(sim, "sha1", sig(p), "%s: %r: get_file_sha1 %r is not the sha1 of the canonical text %r" % (ctx, p, sha, txt))
+                    fail(sim, "sha1", sig(p), "%s: %r (eol=%s): get_file_sha1 %r is not the sha1 of the canonical text %s (on disk %s)" % (ctx, p, s, sha, show(txt), show(disk)))
                 obs.append((p, disk, txt))
             exp_mod, exp_add = w.modified(t), w.added(t)
             got_mod, got_add, other = set(), set(), []
@@ -551,20 +726,20 @@ def verify(sim, w, ti, tree, op, wrote=(), unguarded=()):
             if got_mod != exp_mod:
                 p = sorted(got_mod ^ exp_mod)[0]
                 tag = "fresh_checkout_changes" if kind == "checkout" else "changes"
-                detail = "%s: iter_changes reports modified %r, model %r; %r (eol=%s): on disk %r, canonical %r, basis %r" % (ctx, sorted(got_mod), sorted(exp_mod), p, w.setting(p), t["disk"].get(p), t["read"].get(p), btexts.get(p))
+                detail = "%s: iter_changes reports modified %r, model %r; %r (eol=%s): on disk %s, canonical %s, basis %s" % (ctx, sorted(got_mod), sorted(exp_mod), p, w.setting(p), show(t["disk"].get(p)), show(t["read"].get(p)), show(btexts.get(p)))
                 fail(sim, tag, sig(p) + ["spurious" if p in got_mod else "missed"], detail)
             if kind == "checkout" and exp_mod and "crcrlf" in unguarded:
                 # consistent with what was read and stored, but the property read literally ("a freshly
                 # checked-out tree with eol filters reports no changes") does not hold for this revision
                 p = sorted(exp_mod)[0]
-                sim.fail("fresh_checkout_changes", [PROPERTY, "known-defect", "crcrlf"], "%s: the fresh checkout reports %r as modified: %r (eol=%s): repository text %r, written to disk as %r, read back as %r" % (ctx, sorted(exp_mod), p, w.setting(p), btexts.get(p), t["disk"].get(p), t["read"].get(p)))
+                sim.fail("fresh_checkout_changes", [PROPERTY, "known-defect", "crcrlf"], "%s: the fresh checkout reports %r as modified: %r (eol=%s): repository text %s, written to disk as %s, read back as %s" % (ctx, sorted(exp_mod), p, w.setting(p), show(btexts.get(p)), show(t["disk"].get(p)), show(t["read"].get(p))))
             hc = tree.has_changes()
-            if bool(hc) != bool(exp_mod or exp_add):
+            if bool(hc) != bool(exp_mod or exp_add or t["pending"]):
                 fail(sim, "has_changes", [kind], "%s: has_changes() = %r, model: modified %r added %r" % (ctx, hc, sorted(exp_mod), sorted(exp_add)))
     for p in wrote:
         if p in t["disk"]:
             sim.state_seen((w.setting(p), kind, klass(t["disk"][p])))
-    sim.event("obs", ti, _h(obs), _h((sorted(got_mod), sorted(got_add))))
+    sim.event("obs", ti, _h([(q, hashlib.sha1(d).hexdigest(), hashlib.sha1(x).hexdigest()) for q, d, x in obs]), _h((sorted(got_mod), sorted(got_add))))
 
 
 def check_last_changed(sim, w, ti, tree, op):
@@ -579,6 +754,39 @@ def check_last_changed(sim, w, ti, tree, op):
                 fail(sim, "commit_text_version", [w.setting(p)], "tree %d after commit %s: %r was last changed in %s according to the repository, model %s" % (ti, op["rev"], p, got, last[p]))
 
 
+def make_tree(fmt, name):
+    """treesim.make_tree for a named bzr format (standalone tree, control files through the seam)."""
+    from breezy import controldir
+
+    root = os.path.join(os.environ["VERIF_SCRATCH"], name)
+    os.makedirs(root)
+    wt = controldir.ControlDir.create_standalone_workingtree(root, format=controldir.format_registry.make_controldir(fmt))
+    with wt.lock_write():
+        wt.set_root_id(T.ROOT_ID)
+    del wt
+    return T.open_tree(root, "bzr")
+
+
+def do_merge(sim, w, trees, ti, op, scratch, i):
+    """One-shot side branch: sprout of the tree's basis, the files written / added / committed
+    there (same rules file: the read filters apply), then merge_from_branch into the tree."""
+    t = w.trees[ti]
+    basis_rev = w.revs[t["basis"]][0].encode()
+    side_root = os.path.join(scratch, "side%d" % i)
+    side = trees[ti].branch.controldir.sprout(side_root, revision_id=basis_rev).open_workingtree()
+    btexts = w.basis_texts(t)
+    for f in op["files"]:
+        p = f["p"]
+        with open(os.path.join(side_root, p), "wb") as fh:
+            fh.write(op_bytes(f))
+        if p not in btexts:
+            side.add([p], ids=[file_id(p)])
+    side.commit(message="m " + op["rev"], rev_id=op["rev"].encode(), timestamp=op["ts"], timezone=0, committer="Sim User <sim@example.com>", allow_pointless=True, reporter=T._quiet_reporter())
+    conflicts = trees[ti].merge_from_branch(side.branch)
+    if conflicts:
+        fail(sim, "merge_conflicts", [w.s, w.s2 or "-"], "tree %d: merge of a side branch that cannot conflict reported %r" % (ti, conflicts))
+
+
 def execute(sim, plan):
     warm()
     T.quiet()
@@ -591,9 +799,10 @@ def execute(sim, plan):
     unguarded = set(plan.get("unguarded", ()))
     write_rules(s, s2)
     w = World(s, s2)
-    tree0 = T.make_tree(sim, "bzr", "t0")
+    fmt = plan.get("fmt", "2a")
+    tree0 = make_tree(fmt, "t0")
     if not tree0.supports_content_filtering():
-        raise RuntimeError("2a working tree without content filtering")
+        raise RuntimeError("working tree of format %s without content filtering" % fmt)
     tree0.mkdir("d", b"d-id")
     tree0.commit(message="m rev-0", rev_id=b"rev-0", timestamp=1700000000, timezone=0, committer="Sim User <sim@example.com>", reporter=T._quiet_reporter())
     trees = [tree0]
@@ -605,7 +814,8 @@ def execute(sim, plan):
             sim.event("skip", i, op["o"])
             continue
         o, ti = op["o"], op["t"]
-        label = {k: v for k, v in op.items() if k != "x"}
+        label = {k: v for k, v in op.items() if k not in ("x", "rle", "files")}
+        contents = [op_bytes(f) for f in [op] + op.get("files", []) if "x" in f or "rle" in f]
         try:
             if o == "checkout":
                 root = os.path.join(scratch, "t%d" % ti)
@@ -617,7 +827,7 @@ def execute(sim, plan):
                 tree = trees[ti]
                 p = op["p"]
                 with open(os.path.join(tree._sim_root, p), "wb") as f:
-                    f.write(op["x"].encode("latin-1"))
+                    f.write(op_bytes(op))
                 if p not in w.trees[ti]["ver"]:
                     tree.add([p], ids=[file_id(p)])
             elif o == "commit":
@@ -630,6 +840,8 @@ def execute(sim, plan):
                     with trees[ti].lock_read():
                         cs = [str(c) for c in trees[ti].conflicts()]
                     fail(sim, "update_conflicts", [s, s2 or "-"], "tree %d: update that cannot conflict reported %r conflicts: %s" % (ti, nconf, cs[:3]))
+            elif o == "merge":
+                do_merge(sim, w, trees, ti, op, scratch, i)
             elif o == "reopen":
                 trees[ti] = T.reopen(trees[ti])
         except Exception as e:  # noqa: BLE001 - no operation of this workload may be refused
@@ -642,23 +854,25 @@ def execute(sim, plan):
             tb = "".join(traceback.format_exception(type(e), e, e.__traceback__)[-5:])
             fail(sim, "op_raised", [o, type(e).__name__], "%s raised %r\n%s" % (json.dumps(label), e, tb))
         wrote = w.do(op)
-        sim.event("op", i, json.dumps(label, sort_keys=True), _h(op.get("x", "")))
+        sim.event("op", i, json.dumps(label, sort_keys=True), [f["p"] for f in op.get("files", [])], [hashlib.sha1(c).hexdigest()[:12] for c in contents])
         sim.probe("op_" + o)
         verify(sim, w, ti, trees[ti], op, wrote, unguarded)
         if o == "commit":
             check_last_changed(sim, w, ti, trees[ti], op)
             did["commit"] += 1
-        if o in ("checkout", "update", "revert") and wrote:
+        if o in ("checkout", "update", "revert", "merge") and wrote:
             did["out"] += 1
             for p in wrote:
                 d = w.trees[ti]["disk"].get(p)
                 if d is not None:
                     sim.probe("out_%s_%s" % (w.setting(p), klass(d)))
-        if o == "write":
-            sim.probe("write_" + op.get("c", "?"))
+        for f in [op] + op.get("files", []):
+            if "c" in f:
+                sim.probe(o + "_" + f["c"])
     # every tree once more at the end (trees that were not touched by the last operations)
     for ti, tree in enumerate(trees):
         verify(sim, w, ti, tree, {"o": "final"})
+    sim.probe("fmt_" + fmt)
     sim.probe("eol_" + s)
     if s2:
         sim.probe("eol2_" + s2)
@@ -682,7 +896,7 @@ WARM_PLAN = {
         {"o": "commit", "t": 0, "rev": "rev-4", "ts": 1700000004},
         {"o": "checkout", "t": 1, "at": 1},
         {"o": "write", "t": 0, "p": "a", "x": "p" * 153 + "one\r\nthree\r\n", "c": "lines"},
-        {"o": "write", "t": 0, "p": "g", "x": "p" * 190 + "\r\r\n", "c": "soup"},
+        {"o": "write", "t": 0, "p": "g", "x": "p" * 190 + "\r\n", "c": "soup"},
         {"o": "commit", "t": 0, "rev": "rev-7", "ts": 1700000007},
         {"o": "update", "t": 1},
         {"o": "write", "t": 1, "p": "a", "x": "p" * 250 + "zz\n", "c": "lines"},
@@ -690,6 +904,9 @@ WARM_PLAN = {
         {"o": "checkout", "t": 2, "at": 2, "accel": 0, "use_accel": True},
         {"o": "reopen", "t": 2},
         {"o": "revert", "t": 0, "paths": None},
+        {"o": "merge", "t": 0, "rev": "side-20", "ts": 1700000020, "files": [{"p": "d/e.x", "c": "bigbinary", "rle": [[5, "h"], [1, "\n"], [BLOCK - 7, "b"], [1, "\r\n"], [900, "c"], [1, "\x00"], [2000, "e"]]}, {"p": "a", "c": "bigtext", "rle": [[BLOCK - 1, "a"], [1, "\r\n"], [3000, "t"]]}]},
+        {"o": "commit", "t": 0, "rev": "rev-21", "ts": 1700000021},
+        {"o": "update", "t": 2},
     ],
 }
 
@@ -718,15 +935,17 @@ def warm():
     saved = {k: os.environ.get(k) for k in ("VERIF_SCRATCH", "BRZ_HOME", "HOME")}
     tmp = tempfile.mkdtemp(prefix="verif-warm-", dir="/dev/shm")
     try:
-        sc = os.path.join(tmp, "w")
-        os.makedirs(os.path.join(sc, "home"))
-        os.environ.update(VERIF_SCRATCH=sc, BRZ_HOME=os.path.join(sc, "home"), HOME=os.path.join(sc, "home"))
-        sim = Sim(1, WARM_PLAN, step_cap=10**6)
-        try:
-            execute(sim, WARM_PLAN)
-        except Exception:  # noqa: BLE001 - a dry run; real runs report
-            if os.environ.get("VERIF_WARM_DEBUG"):
-                raise
+        for fmt in sorted(set(FORMATS)):
+            sc = os.path.join(tmp, "w" + fmt)
+            os.makedirs(os.path.join(sc, "home"))
+            os.environ.update(VERIF_SCRATCH=sc, BRZ_HOME=os.path.join(sc, "home"), HOME=os.path.join(sc, "home"))
+            plan = dict(WARM_PLAN, fmt=fmt)
+            sim = Sim(1, plan, step_cap=10**6)
+            try:
+                execute(sim, plan)
+            except Exception:  # noqa: BLE001 - a dry run; real runs report
+                if os.environ.get("VERIF_WARM_DEBUG"):
+                    raise
     finally:
         for k, v in saved.items():
             if v is None:
